@@ -8,6 +8,7 @@ import (
 	"path/filepath"
 	"strconv"
 	"strings"
+	"sync"
 	"testing"
 	"unicode/utf8"
 
@@ -1046,6 +1047,111 @@ func TestKeywordCase(t *testing.T) {
 		}
 	}
 	evid.Exhaustive("keyword-case-patterns, alone and behind 10 preceding token sequences", n)
+}
+
+// TestLiteralsUnderConcurrentParses: the value of a literal is determined by its spelling - not by what other texts
+// are being parsed at the same moment, nor by rejected texts parsed before: after a round of rejected texts, several
+// goroutines parse scripts whose literals (strings with escapes, integers, floats) spell out which script they belong
+// to; every literal comes back with the value of its own spelling.
+func TestLiteralsUnderConcurrentParses(t *testing.T) {
+	const G = 8
+	rounds := evid.Scale(400, 4000)
+	rejected := []string{"x = = 1", "a[", "z = \"unterminated", "f(\n) )\n@", "x = '''open", "y = 0x", "if { }", "k = \"\\q\""}
+	mk := func(g, r int) (string, []string) {
+		s := fmt.Sprintf("w%d r%d \\\"q\\\" \\n \\u00e9 tail", g, r)
+		val := fmt.Sprintf("w%d r%d \"q\" \n \u00e9 tail", g, r)
+		i := int64(g)*1000003 + int64(r)
+		f := float64(g) + float64(r)/1024
+		fs := strconv.FormatFloat(f, 'f', -1, 64)
+		if f == math.Trunc(f) {
+			fs += ".0"
+		}
+		src := fmt.Sprintf("a = \"%s\"\nb = %d\nc = %s\nd = '%d-%d'\ne = 0x%x", s, i, fs, g, r, i)
+		return src, []string{"s:" + val, fmt.Sprint("i:", i), fmt.Sprint("f:", f), fmt.Sprintf("s:%d-%d", g, r), fmt.Sprint("i:", i)}
+	}
+	render := func(n *gen.Node) string {
+		if n == nil {
+			return "<nil>"
+		}
+		switch n.Kind {
+		case gen.Str:
+			return "s:" + n.S
+		case gen.Int:
+			return fmt.Sprint("i:", n.I)
+		case gen.Float:
+			return fmt.Sprint("f:", n.F)
+		}
+		return "other:" + gen.ShapeAll([]*gen.Node{n})
+	}
+	check := func(src string, want []string) string {
+		stmts, err, crash := impl.Parse("c07.p", src)
+		if crash != nil {
+			return "parser panicked: " + crash.Value
+		}
+		if err != nil {
+			return "rejected: " + err.Error()
+		}
+		tree, c := conv.Stmts(stmts)
+		if c.Err != nil {
+			return "malformed tree: " + c.Err.Error()
+		}
+		if len(tree) != len(want) {
+			return fmt.Sprintf("%d statements, the text has %d", len(tree), len(want))
+		}
+		for i, st := range tree {
+			if st == nil || st.Kind != gen.Assign || len(st.Rhs) != 1 {
+				return fmt.Sprintf("statement %d is not the assignment of the text", i+1)
+			}
+			if got := render(gen.Fold(st.Rhs[0])); got != want[i] {
+				return fmt.Sprintf("literal %d has the value %q, its spelling says %q", i+1, got, want[i])
+			}
+		}
+		return ""
+	}
+	// alone first
+	for g := 0; g < G; g++ {
+		src, want := mk(g, 0)
+		if msg := check(src, want); msg != "" {
+			rk.Fail(t, "concurrent-literals", replay{Src: src, Expect: "accept", Kind: "concurrent-literals"}, "parsed alone: %s\nsource: %q", msg, src)
+		}
+	}
+	n := 0
+	for phase := 0; phase < 3; phase++ {
+		for k := 0; k <= phase*4; k++ { // phase 0: one round of rejected texts, then five, then nine
+			for _, bad := range rejected {
+				if _, err, _ := impl.Parse("bad.p", bad); err == nil {
+					t.Fatalf("harness: %q is accepted", bad)
+				}
+			}
+		}
+		var mu sync.Mutex
+		var firstSrc, firstMsg string
+		var wg sync.WaitGroup
+		for g := 0; g < G; g++ {
+			wg.Add(1)
+			go func(g int) {
+				defer wg.Done()
+				for r := 0; r < rounds; r++ {
+					src, want := mk(g, r+phase*rounds)
+					if msg := check(src, want); msg != "" {
+						mu.Lock()
+						if firstMsg == "" {
+							firstSrc, firstMsg = src, msg
+						}
+						mu.Unlock()
+						return
+					}
+				}
+			}(g)
+		}
+		wg.Wait()
+		if firstMsg != "" {
+			rk.Fail(t, "concurrent-literals", replay{Src: firstSrc, Expect: "accept", Kind: "concurrent-literals"}, "parsed next to %d other parsing goroutines (after rejected texts had been parsed): %s\nsource: %q", G-1, firstMsg, firstSrc)
+		}
+		n += G * rounds
+		evid.Case(fmt.Sprintf("concurrent-literals/%d", phase), true, "literals-under-concurrent-parses")
+	}
+	evid.Exhaustive("goroutine x round: a script of five literals parsed next to 7 other parses, after rejected texts", n)
 }
 
 func TestReplays(t *testing.T) {
